@@ -85,6 +85,8 @@ func seqProfile(prop string, g *Gen, cfg *Config, rng *SplitMix) (steps int) {
 		g.W["plan"] = 5
 		g.BadBias = 30
 	case "C16":
+		g.W["sequence"] = 20
+		g.W["plan"] = 8
 		g.ForcePct = 8
 		g.Human = 0
 		g.BadBias = 20
@@ -150,7 +152,11 @@ func runSeqGenerated(bin, prop string, seed uint64) *RunReport {
 		}
 	}
 	if (prop == "C15" || prop == "C08") && rng.Chance(2, 3) {
-		for _, st := range g.twoLevelPrelude() {
+		steps := g.twoLevelPrelude()
+		if rng.Chance(1, 3) {
+			steps = g.cycleMotif(len(r.M.Order))
+		}
+		for _, st := range steps {
 			sc.Steps = append(sc.Steps, st)
 			r.ExecStep(st)
 		}
@@ -316,7 +322,10 @@ func planFor(prop string) *PropPlan {
 	case "C18":
 		p.Modes = []Mode{{Name: "layout", Quick: 300, Deep: 9000,
 			Run:    func(bin string, seed uint64) *RunReport { return runLayoutGenerated(bin, seed) },
-			Replay: ReplayScenario}}
+			Replay: ReplayScenario},
+			{Name: "conc", Quick: 12, Deep: 300,
+				Run:    func(bin string, seed uint64) *RunReport { return runConcSample(bin, prop, seed, false) },
+				Replay: ReplayConc}}
 		p.Rule = "seeded sequential histories in which every command draws a fresh start directory (depth 0-3, names with spaces) and --dir spelling (none, absolute, relative, the .ergo directory itself relative or absolute, trailing slash, .. segments); the store layout is drawn per run from plans-only, legacy events-only, both files (the unused one holds a decoy), lock-less, and shadowed by a decoy store in the enclosing directory; init (with and without a directory argument) and lock removal are inserted at seeded points; every step is judged by the sequential refinement oracle (a write through one spelling must be visible through all others; where must name the project's .ergo; init changes nothing); non-trivial = at least one mutation in effect; distinct = distinct trace digests"
 	case "C05":
 		p.Modes = []Mode{{Name: "fork", Quick: 200, Deep: 6000,
